@@ -28,10 +28,10 @@ func init() {
 				Flavours: []string{"plain", "race", "cover"},
 				Blocks:   16,
 				Procs:    16,
-				Rule: "case = one input byte string. Exhaustive: every string of length <= 7 (<= 8 thorough) over 7 bytes: one representative per tokenizer class (blank, newline, backslash, single quote, double quote) and two 'other' bytes; plus every single byte 0..255 in five contexts (classification of all byte values), and random inputs up to 200 bytes over a wider alphabet (tab, CR, VT, FF, NBSP, $, `, #, non-ASCII). " +
+				Rule: "case = one input byte string. Exhaustive: every string of length <= 7 (<= 8 thorough) over 7 bytes: one representative per tokenizer class (blank, newline, backslash, single quote, double quote) and two 'other' bytes; plus every single byte 0..255 in five contexts (classification of all byte values), inputs of 4090..65537 bytes whose tokens and quoted spans cross buffer boundaries, and random inputs up to 200 bytes over a wider alphabet (tab, CR, VT, FF, NBSP, $, `, #, non-ASCII). " +
 					"Per input: Split's fields and completeness flag vs the reference; Scanner over a one-byte-at-a-time reader and over random fragmentations (Next/Text, Complete after the last token, Next stays false and Err stays io.EOF afterwards); Each with early stop; Scanner.Split; Rest called after the k-th token for every k must yield exactly input[offset_k:] and Next must then stay false; a reader that fails with a non-EOF error must surface through Err. Complete inputs without other metacharacters and without unquoted newlines are also split by dash and 'bash +B' (length <= 6 exhaustive). Reset reuse and the pooled Split run concurrently under -race. " +
 					"distinct = the input (enumerated); non-trivial = it contains a quote or backslash",
-				Required:     []string{"inputs", "state_class_pairs_covered_of_42", "scanner_fragmentations", "rest_calls", "shell_inputs_dash", "shell_inputs_bash", "incomplete_inputs", "all_byte_values", "concurrent_splits"},
+				Required:     []string{"inputs", "state_class_pairs_covered_of_42", "scanner_fragmentations", "rest_calls", "shell_inputs_dash", "shell_inputs_bash", "incomplete_inputs", "all_byte_values", "concurrent_splits", "long_inputs", "rest_after_reset"},
 				Exhaustive:   true,
 				Assumptions:  []string{"reference tokenizer written from XCU 2.2 with the package's documented deviation: inside double quotes a backslash escapes only the double quote, backslash and newline; $ and ` are ordinary bytes", "dash and bash (+B, LC_ALL=C) as installed"},
 				CoverPkgs:    []string{"github.com/creachadair/mds/shell"},
@@ -198,6 +198,7 @@ type c16mon struct {
 	c      *fw.Ctx
 	seen   [42]bool
 	sc     *shell.Scanner // reused through Reset
+	sc2    *shell.Scanner // reused through Reset, for the Rest checks
 	shIn   []string
 	shWant [][]string
 }
@@ -240,6 +241,7 @@ func (m *c16mon) check(in string, r *rand.Rand, deep bool) bool {
 				sc = m.sc
 			}
 			c.Add("scanner_fragmentations", 1)
+			c.Step()
 			var got []string
 			for sc.Next() {
 				got = append(got, sc.Text())
@@ -283,11 +285,27 @@ func (m *c16mon) check(in string, r *rand.Rand, deep bool) bool {
 		}
 		// Rest after the k-th token, for every k
 		for k := 0; k <= len(want); k++ {
+			if len(want) > 40 && k > 2 && k < len(want)-1 && k%(len(want)/6+1) != 0 {
+				continue // long inputs: Rest after the first tokens, a few in the middle, the last ones
+			}
+			c.Step()
 			sizes := []int{1}
 			if k%2 == 1 {
 				sizes = []int{3, 1, 4096}
 			}
-			sc := shell.NewScanner(&chunkReader{data: in, sizes: sizes})
+			var sc *shell.Scanner
+			if k%3 == 2 {
+				// a scanner that has been used before and is re-targeted with Reset
+				if m.sc2 == nil {
+					m.sc2 = shell.NewScanner(strings.NewReader("earlier 'input' that is"))
+					m.sc2.Next()
+				}
+				m.sc2.Reset(&chunkReader{data: in, sizes: sizes})
+				sc = m.sc2
+				c.Add("rest_after_reset", 1)
+			} else {
+				sc = shell.NewScanner(&chunkReader{data: in, sizes: sizes})
+			}
 			for j := 0; j < k; j++ {
 				if !sc.Next() {
 					c.Fail(data, "Next false before token %d of %d", j+1, len(want))
@@ -486,6 +504,25 @@ func runC16(c *fw.Ctx) {
 		m.flushShell(rig)
 	}
 	idx++
+	// long inputs: tokens and quoted spans that cross buffer boundaries (4096, 8192, 65536)
+	if c.Block < 8 && c.Begin(idx+600000+c.Block) {
+		lens := []int{4090, 4094, 4095, 4096, 4097, 4100, 5000, 8191, 8192, 8193, 20000, 65537}
+		for li, L := range lens {
+			if li%8 != c.Block {
+				continue
+			}
+			body := strings.Repeat("abcdefghij", L/10+1)[:L]
+			sp := strings.Repeat("ab cd\tef\n", L/9+1)[:L]
+			for _, in := range []string{
+				"'" + sp + "' tail", "'" + sp, "x '" + body + "'y z", "\"" + sp + "\" t", "\"" + body + "\\\"" + body + "\"", body + " " + body, body + "\\\n" + body + " k",
+				strings.Repeat(" ", L) + "a", "a" + strings.Repeat("\\ ", L/2) + " b", strings.Repeat("'' ", L/3), strings.Repeat("a ", L/2) + "'" + body,
+			} {
+				m.check(in, nil, true)
+				c.Add("long_inputs", 1)
+				c.Add("inputs", 1)
+			}
+		}
+	}
 	// random longer inputs over a wider alphabet
 	wide := []string{"a", "b", "xyz", " ", "  ", "\t", "\n", "\\", "'", "\"", "\r", "\v", "\f", " ", "$", "`", "#", "é", "\\\n", "''", "\"\"", "\\\\", "\\\""}
 	nr := c.Pick(3000, 40000)
